@@ -136,7 +136,7 @@ type c14Obs struct {
 	Bal     []string
 	Pool    string
 	Anom    bool
-	Applied int64
+	Applied []bool
 }
 
 type c14Case struct {
@@ -164,7 +164,10 @@ type c14Run struct {
 	pids   []string // proposal index -> hex id
 	nonce  int
 	pubFin bool // a public PROPOSAL_FINALIZE succeeded in the current block
-	passProp int // index of the proposal whose update changes configUpdate.passPercentage (-1 = none)
+	prod     bool                 // genesis with production-range proposal options (option updates validate)
+	cfg      map[int][2]string    // config proposal index -> update key, value
+	keyOwner map[string]int       // update key -> index of the last proposal created with it
+	applied  map[int]bool         // config proposals whose value has been seen in force
 }
 
 func (r *c14Run) env() int { return r.intern(r.envRaw()) }
@@ -264,7 +267,7 @@ func jsonAmt(v string) string {
 const c14CfgBase = 100000000000000 // onsOptions.perBlockFees value of proposal i = base + 1 + i
 
 func (r *c14Run) observe(m map[string]string) c14Obs {
-	o := c14Obs{H: r.rep.H, Applied: -1}
+	o := c14Obs{H: r.rep.H}
 	na := len(r.cw.accts)
 	prefixes := []string{"propActive", "propPassed", "propFailed", "propFinalized", "propFinalizeFailed"}
 	for _, id := range r.pids {
@@ -340,20 +343,105 @@ func (r *c14Run) observe(m map[string]string) c14Obs {
 		}
 	}
 	o.Pool = pool.String()
-	// the ONS per-block fee in force identifies the last applied configuration update
-	gs := governance.NewStore("g", r.rep.A.VerifDeliver())
-	if oo, err := gs.GetONSOptions(); err == nil {
-		x := new(big.Int).Sub(oo.PerBlockFees.BigInt(), big.NewInt(c14CfgBase+1))
-		if x.Sign() >= 0 && x.Cmp(big.NewInt(1000)) < 0 {
-			o.Applied = x.Int64()
+	// a configuration proposal counts as applied once its value has been seen in force for its key
+	for i, kv := range r.cfg {
+		if r.optValue(kv[0]) == kv[1] {
+			r.applied[i] = true
 		}
 	}
-	if o.Applied < 0 && r.passProp >= 0 {
-		if po, err := gs.GetProposalOptions(); err == nil && po.ConfigUpdate.PassPercentage != c14Pass[0] {
-			o.Applied = int64(r.passProp)
-		}
+	for i := range r.pids {
+		o.Applied = append(o.Applied, r.applied[i])
 	}
 	return o
+}
+
+var c14TypeKeys = []string{"configUpdate", "codeChange", "general"}
+
+// the value currently in force for a governance update key ("" = unknown key)
+func (r *c14Run) optValue(key string) string {
+	gs := governance.NewStore("g", r.rep.A.VerifDeliver())
+	if strings.HasPrefix(key, "onsOptions.") {
+		oo, err := gs.GetONSOptions()
+		if err != nil {
+			return ""
+		}
+		switch key {
+		case "onsOptions.perBlockFees":
+			return oo.PerBlockFees.String()
+		case "onsOptions.baseDomainPrice":
+			return oo.BaseDomainPrice.String()
+		}
+		return ""
+	}
+	po, err := gs.GetProposalOptions()
+	if err != nil {
+		return ""
+	}
+	for ti, o := range []governance.ProposalOption{po.ConfigUpdate, po.CodeChange, po.General} {
+		pre := "propOptions." + c14TypeKeys[ti] + "."
+		if !strings.HasPrefix(key, pre) {
+			continue
+		}
+		switch strings.TrimPrefix(key, pre) {
+		case "fundingGoal":
+			return o.FundingGoal.String()
+		case "initialFunding":
+			return o.InitialFunding.String()
+		case "votingDeadline":
+			return fmt.Sprint(o.VotingDeadline)
+		case "fundingDeadline":
+			return fmt.Sprint(o.FundingDeadline)
+		case "passPercentage":
+			return fmt.Sprint(o.PassPercentage)
+		}
+	}
+	return ""
+}
+
+// a key may be used by a new configuration proposal only when its previous user can no longer be finalised
+// (two pending updates of one key finalised in one block would hide the first application from the observation)
+func (r *c14Run) keyFree(key string, prev *c14Obs) bool {
+	i, ok := r.keyOwner[key]
+	if !ok {
+		return true
+	}
+	if prev == nil || i >= len(prev.Props) || prev.Props[i] == nil {
+		return false
+	}
+	p := prev.Props[i]
+	return p.Stores >= 8 || (p.Stores == 4 && (p.Outcome == 1 || p.Outcome == 2 || p.Outcome == 4))
+}
+
+// a valid (always inside the ranges of ValidateProposal, whatever the other options are) value for an update key
+func c14UpdateValue(rnd *rand.Rand, key string, idx int) string {
+	parts := strings.Split(key, ".")
+	if parts[0] == "onsOptions" {
+		if parts[1] == "perBlockFees" {
+			return fmt.Sprint(c14CfgBase + 1 + idx)
+		}
+		return fmt.Sprintf("10000000000000000000%02d", idx%100+1)
+	}
+	ty, f := parts[1], parts[2]
+	switch f {
+	case "fundingGoal":
+		return fmt.Sprint([]int64{5000000000, 20000000000}[rnd.Intn(2)] + int64(idx))
+	case "initialFunding":
+		return fmt.Sprint([]int64{1000000100, 1400000000}[rnd.Intn(2)] + int64(idx))
+	case "votingDeadline":
+		switch ty {
+		case "configUpdate":
+			return fmt.Sprint([]int64{10001, 20000}[rnd.Intn(2)] + int64(idx))
+		case "codeChange":
+			return fmt.Sprint(150001 + idx)
+		}
+		return fmt.Sprint(75001 + idx)
+	case "fundingDeadline":
+		if ty == "general" {
+			return fmt.Sprint(75001 + idx)
+		}
+		return fmt.Sprint(10001 + idx)
+	}
+	return fmt.Sprint(52 + (idx*7+rnd.Intn(28))%28)
 }
 
 func (r *c14Run) memo() string { r.nonce++; return fmt.Sprintf("c14-%s-%d", r.c.Name, r.nonce) }
@@ -414,6 +502,10 @@ func (r *c14Run) doCreate(ty, proposer int, amount string, fdl, vdl int64, goal 
 		Descr: fmt.Sprintf("create p%d type %d by %s amount %s fdl %d vdl %d cfg %q", id, ty, r.cw.names[proposer], amount, fdl, vdl, cfg)}, tx, true)
 	if op.Ok {
 		r.pids = append(r.pids, hexid)
+		if kv := strings.SplitN(cfg, ":", 2); ty == 0 && len(kv) == 2 {
+			r.cfg[id] = [2]string{kv[0], kv[1]}
+			r.keyOwner[kv[0]] = id
+		}
 	} else {
 		// the id was not consumed; forget the failed attempt's index by renaming it: the model op keeps index `id`,
 		// which stays absent in both worlds until a later create succeeds under a different hex id
@@ -507,6 +599,69 @@ func (r *c14Run) doStake(v ValSpec, amount string, unstake bool) {
 		Descr: fmt.Sprintf("stake change by %s amount %s unstake=%v code %d", r.cw.names[payer], amount, unstake, res.Code)})
 }
 
+// create on the production-range genesis: parameters follow the LIVE options (which finalised configuration
+// proposals change), sometimes the genesis ones; configuration proposals update proposal options of any type
+func (r *c14Run) randomCreateProd(g *c14Gen, h int64) {
+	rnd := g.rnd
+	gs := governance.NewStore("g", r.rep.A.VerifDeliver())
+	po, err := gs.GetProposalOptions()
+	must(err)
+	ty := rnd.Intn(3)
+	if rnd.Intn(2) == 0 {
+		ty = 0
+	}
+	o := []governance.ProposalOption{po.ConfigUpdate, po.CodeChange, po.General}[ty]
+	init, goal, vd, pass := o.InitialFunding.String(), o.FundingGoal.String(), o.VotingDeadline, int64(o.PassPercentage)
+	if rnd.Intn(6) == 0 { // the values of the genesis: refused once the option has been changed
+		init, goal, vd, pass = "1000000000", "10000000000", c14VDelta[ty], int64(c14Pass[ty])
+	}
+	amount := init
+	switch rnd.Intn(8) {
+	case 0:
+		x, _ := new(big.Int).SetString(init, 10)
+		amount = x.Sub(x, big.NewInt(1)).String()
+	case 1:
+		amount = goal
+	case 2, 3:
+		x, _ := new(big.Int).SetString(init, 10)
+		amount = x.Add(x, big.NewInt(1000000000)).String()
+	}
+	fdl := h + 1 + int64(rnd.Intn(6))
+	if rnd.Intn(12) == 0 {
+		fdl = h
+	}
+	vdl := fdl + vd
+	cfg, valid := "", true
+	if ty == 0 {
+		keys := []string{"onsOptions.perBlockFees", "onsOptions.baseDomainPrice"}
+		for _, t := range c14TypeKeys {
+			for _, f := range []string{"fundingGoal", "fundingGoal", "votingDeadline", "fundingDeadline", "initialFunding", "passPercentage"} {
+				keys = append(keys, "propOptions."+t+"."+f)
+			}
+		}
+		key := keys[rnd.Intn(len(keys))]
+		for try := 0; try < 20 && !r.keyFree(key, g.prev); try++ {
+			key = keys[rnd.Intn(len(keys))]
+		}
+		val := c14UpdateValue(rnd, key, len(r.pids))
+		if !r.keyFree(key, g.prev) || val == r.optValue(key) {
+			ty = 2
+			o = po.General
+			init, goal, vd, pass = o.InitialFunding.String(), o.FundingGoal.String(), o.VotingDeadline, int64(o.PassPercentage)
+			amount, vdl = init, fdl+vd
+		} else {
+			cfg = key + ":" + val
+			switch rnd.Intn(10) {
+			case 0:
+				cfg, valid = "propOptions.general.passPercentage:90", false
+			case 1:
+				cfg, valid = "propOptions.codeChange.fundingGoal:1", false
+			}
+		}
+	}
+	r.doCreate(ty, c14Pick(rnd, []int{0, 1, 2, 3, 4, 5, 6}), amount, fdl, vdl, goal, pass, cfg, valid)
+}
+
 func c14Pick(rnd *rand.Rand, xs []int) int { return xs[rnd.Intn(len(xs))] }
 
 // one random governance transaction, biased by the stage of the proposals at the previous block end
@@ -533,6 +688,8 @@ func (r *c14Run) randomOp(g *c14Gen, h int64) {
 	}
 	k := rnd.Intn(100)
 	switch {
+	case (k < 12 || np == 0) && r.prod:
+		r.randomCreateProd(g, h)
 	case k < 12 || np == 0:
 		ty := rnd.Intn(3)
 		proposer := c14Pick(rnd, users)
@@ -558,12 +715,23 @@ func (r *c14Run) randomOp(g *c14Gen, h int64) {
 		}
 		cfg, valid := "", true
 		if ty == 0 {
-			cfg = fmt.Sprintf("onsOptions.perBlockFees:%d", c14CfgBase+1+len(r.pids))
+			key := []string{"onsOptions.perBlockFees", "onsOptions.baseDomainPrice"}[rnd.Intn(2)]
+			if !r.keyFree(key, g.prev) {
+				ty = 1 + rnd.Intn(2)
+				vdl = fdl + c14VDelta[ty]
+				pass = int64(c14Pass[ty])
+			} else {
+				cfg = key + ":" + c14UpdateValue(rnd, key, len(r.pids))
+			}
 			switch rnd.Intn(8) {
 			case 0:
-				cfg, valid = "onsOptions.perBlockFees:0", false
+				if ty == 0 {
+					cfg, valid = "onsOptions.perBlockFees:0", false
+				}
 			case 1:
-				cfg, valid = "nosuch.key:5", false
+				if ty == 0 {
+					cfg, valid = "nosuch.key:5", false
+				}
 			}
 		}
 		r.doCreate(ty, proposer, amount, fdl, vdl, goal, pass, cfg, valid)
@@ -573,6 +741,13 @@ func (r *c14Run) randomOp(g *c14Gen, h int64) {
 			return
 		}
 		famt := c14Amts[rnd.Intn(len(c14Amts))]
+		if g.prev != nil && id < len(g.prev.Props) && g.prev.Props[id] != nil && rnd.Intn(3) == 0 {
+			pg, _ := new(big.Int).SetString(g.prev.Props[id].Goal, 10)
+			pt, _ := new(big.Int).SetString(g.prev.Props[id].Total, 10)
+			if d := new(big.Int).Sub(pg, pt); d.Sign() > 0 {
+				famt = d.String() // exactly up to the goal recorded in the proposal
+			}
+		}
 		if rnd.Intn(40) == 0 {
 			famt = "-" + famt // Validate does not look at the sign
 		}
@@ -687,7 +862,7 @@ func c14NewRun(name string) *c14Run {
 	cw := c14NewWorld()
 	rep := NewReplica(cw.genesis(), ReplicaOpts{NodeVal: cw.w.Vals[0].Val})
 	rep.InitChain()
-	r := &c14Run{cw: cw, rep: rep, c: &c14Case{Name: name, Notes: map[string]interface{}{}}, envIdx: map[string]int{}, passProp: -1}
+	r := &c14Run{cw: cw, rep: rep, c: &c14Case{Name: name, Notes: map[string]interface{}{}}, envIdx: map[string]int{}, cfg: map[int][2]string{}, keyOwner: map[string]int{}, applied: map[int]bool{}}
 	o := r.observe(rep.View())
 	r.c.Init, r.c.Pool = o.Bal, o.Pool
 	// warm-up: the validator status records (active flags) that the voting snapshot reads are only
@@ -707,20 +882,61 @@ func (r *c14Run) finish() *c14Case {
 		for len(r.c.Obs[i].Props) < r.c.NP {
 			r.c.Obs[i].Props = append(r.c.Obs[i].Props, nil)
 		}
+		for len(r.c.Obs[i].Applied) < r.c.NP {
+			r.c.Obs[i].Applied = append(r.c.Obs[i].Applied, false)
+		}
 	}
 	r.rep.Close()
 	return r.c
 }
 
+var c14ProdVDelta = map[int]int64{0: 10000, 1: 150000, 2: 75000}
+var c14ProdFundDL = map[int]int64{0: 10000, 1: 10000, 2: 75000}
+
+// run f with the production-range option values ValidateProposal demands (so that proposal-option updates validate)
+func c14WithProd(f func() *c14Case) *c14Case {
+	oldV, oldF := c14VDelta, c14FundDL
+	c14VDelta, c14FundDL = c14ProdVDelta, c14ProdFundDL
+	defer func() { c14VDelta, c14FundDL = oldV, oldF }()
+	return f()
+}
+
 func c14Random(seed int64, ci int, nblocks int) *c14Case {
+	if ci%3 == 2 {
+		return c14WithProd(func() *c14Case { return c14RandomOn(seed, ci, nblocks, true) })
+	}
+	return c14RandomOn(seed, ci, nblocks, false)
+}
+
+func c14RandomOn(seed int64, ci int, nblocks int, prod bool) *c14Case {
 	rnd := rand.New(rand.NewSource(seed*1000003 + int64(ci)))
 	r := c14NewRun(fmt.Sprintf("r%d_%d", seed, ci))
+	r.prod = prod
 	g := &c14Gen{rnd: rnd}
 	for b := 0; b < nblocks; b++ {
 		h := r.beginBlock()
 		n := rnd.Intn(5)
 		if b < 4 {
 			n = 2 + rnd.Intn(3)
+		}
+		if prod && g.prev != nil {
+			// shepherd the configuration proposals towards finalisation, so that options change while the other
+			// proposals are in their funding / voting stage
+			for i, p := range g.prev.Props {
+				if p == nil || p.Type != 0 || p.Stores != 1 {
+					continue
+				}
+				if p.Status == 0 && p.Fdl >= h && rnd.Intn(2) == 0 {
+					pg, _ := new(big.Int).SetString(p.Goal, 10)
+					pt, _ := new(big.Int).SetString(p.Total, 10)
+					if d := new(big.Int).Sub(pg, pt); d.Sign() > 0 {
+						r.doFund(i, rnd.Intn(c14NUsers), d.String())
+					}
+				} else if p.Status == 1 && rnd.Intn(3) != 0 {
+					r.doVote(i, r.acct(r.cw.w.Vals[0].Val.Addr), 1)
+					r.doVote(i, r.acct(r.cw.w.Vals[1].Val.Addr), 1)
+				}
+			}
 		}
 		for i := 0; i < n; i++ {
 			r.randomOp(g, h)
@@ -785,13 +1001,11 @@ func c14ScriptNegative() *c14Case {
 func c14ScriptDrift() *c14Case {
 	// option values inside the ranges ValidateProposal demands, so that a proposal-option update validates
 	oldV, oldF := c14VDelta, c14FundDL
-	c14VDelta = map[int]int64{0: 10000, 1: 150000, 2: 75000}
-	c14FundDL = map[int]int64{0: 10000, 1: 10000, 2: 75000}
+	c14VDelta, c14FundDL = c14ProdVDelta, c14ProdFundDL
 	defer func() { c14VDelta, c14FundDL = oldV, oldF }()
 	r := c14NewRun("drift")
 	v0, v1, v2 := r.acct(r.cw.w.Vals[0].Val.Addr), r.acct(r.cw.w.Vals[1].Val.Addr), r.acct(r.cw.w.Vals[2].Val.Addr)
 	h := r.beginBlock()
-	r.passProp = 0
 	r.doCreate(0, 1, "1000000000", h+3, h+3+c14VDelta[0], "10000000000", int64(c14Pass[0]), "propOptions.configUpdate.passPercentage:80", true)
 	r.endBlock()
 	r.beginBlock()
@@ -818,8 +1032,118 @@ func c14ScriptDrift() *c14Case {
 	p1 := last.Props[1]
 	r.c.Notes["drift_p1_outcome_yes"] = p1 != nil && p1.Outcome == 5
 	r.c.Notes["drift_p1_two_stores"] = last.Anom
-	r.c.Notes["drift_applied"] = last.Applied
+	r.c.Notes["drift_applied"] = len(last.Applied) > 1 && last.Applied[0] && last.Applied[1]
 	return r.finish()
+}
+
+// pass a configuration proposal (index id, already created by user 1 with 1e9) through funding, voting and the
+// automatic finalisation; returns after the block in which it was finalised
+func (r *c14Run) passConfig(id int) {
+	v0, v1 := r.acct(r.cw.w.Vals[0].Val.Addr), r.acct(r.cw.w.Vals[1].Val.Addr)
+	r.beginBlock()
+	r.doFund(id, 2, "9000000000")
+	r.endBlock()
+	r.beginBlock()
+	r.doVote(id, v0, 1)
+	r.doVote(id, v1, 1)
+	r.endBlock()
+	r.beginBlock()
+	r.endBlock()
+}
+
+// the funding-goal option of a type is changed by a finalised configuration proposal while another proposal of that
+// type is in its funding stage: the other proposal keeps the goal RECORDED in it (raised: it must still start voting
+// when its recorded goal is met; lowered: it must not start voting below its recorded goal)
+func c14ScriptGoal(raised bool) func() *c14Case {
+	return func() *c14Case {
+		return c14WithProd(func() *c14Case {
+			name, val := "goallow", "5000000000"
+			if raised {
+				name, val = "goalup", "20000000000"
+			}
+			r := c14NewRun(name)
+			r.prod = true
+			h := r.beginBlock()
+			r.doCreate(0, 1, "1000000000", h+3, h+3+c14VDelta[0], "10000000000", int64(c14Pass[0]), "propOptions.general.fundingGoal:"+val, true)
+			r.doCreate(2, 3, "1000000000", h+9, h+9+c14VDelta[2], "10000000000", int64(c14Pass[2]), "", true) // p1: general, recorded goal 1e10
+			r.endBlock()
+			r.passConfig(0) // general.fundingGoal is now val
+			r.beginBlock()
+			r.doFund(1, 4, "5000000000") // total 6e9: above the lowered option, below the recorded goal
+			r.endBlock()
+			r.beginBlock()
+			r.doFund(1, 5, "4000000000") // total 1e10 = recorded goal, below the raised option
+			r.doCreate(2, 4, "1000000000", r.rep.H+5, r.rep.H+5+c14VDelta[2], val, int64(c14Pass[2]), "", true) // a new one follows the option
+			r.doCreate(2, 4, "1000000000", r.rep.H+5, r.rep.H+5+c14VDelta[2], "10000000000", int64(c14Pass[2]), "", true)
+			o := r.endBlock()
+			r.c.Notes[name+"_p1_voting"] = o.Props[1] != nil && o.Props[1].Status == 1
+			r.beginBlock()
+			r.doVote(1, r.acct(r.cw.w.Vals[0].Val.Addr), 1)
+			r.doWithdraw(1, 4, "5000000000", 4)
+			r.endBlock()
+			for r.rep.H < h+11 {
+				r.beginBlock()
+				r.endBlock()
+			}
+			r.beginBlock()
+			r.doWithdraw(1, 4, "5000000000", 4) // after the funding deadline: still refused, the recorded goal was met
+			r.doFund(1, 5, "1")
+			o = r.endBlock()
+			r.c.Notes[name+"_p1_final_stage_ok"] = o.Props[1] != nil && o.Props[1].Stores == 1 && o.Props[1].Status == 1 && o.Props[1].Total == "10000000000"
+			return r.finish()
+		})
+	}
+}
+
+// votingDeadline, fundingDeadline, initialFunding and passPercentage of a type changed while proposals of that type are
+// in their funding / voting stage
+func c14ScriptOptions() *c14Case {
+	return c14WithProd(func() *c14Case {
+		r := c14NewRun("optmix")
+		r.prod = true
+		v0, v1, v2 := r.acct(r.cw.w.Vals[0].Val.Addr), r.acct(r.cw.w.Vals[1].Val.Addr), r.acct(r.cw.w.Vals[2].Val.Addr)
+		h := r.beginBlock()
+		keys := []string{"propOptions.codeChange.votingDeadline:150777", "propOptions.codeChange.passPercentage:80",
+			"propOptions.codeChange.initialFunding:1400000000", "propOptions.codeChange.fundingDeadline:10777"}
+		for i, k := range keys {
+			r.doCreate(0, 1, "1000000000", h+3+int64(i), h+3+int64(i)+c14VDelta[0], "10000000000", int64(c14Pass[0]), k, true)
+		}
+		r.doCreate(1, 3, "1000000000", h+12, h+12+c14VDelta[1], "10000000000", int64(c14Pass[1]), "", true) // p4: funding while the options change
+		r.doCreate(1, 3, "9000000000", h+12, h+12+c14VDelta[1], "10000000000", int64(c14Pass[1]), "", true) // p5
+		r.endBlock()
+		r.beginBlock()
+		for i := range keys {
+			r.doFund(i, 2, "9000000000")
+		}
+		r.doFund(5, 4, "1000000000") // p5 starts voting under the genesis options (deadline = h + 150000)
+		r.endBlock()
+		r.beginBlock()
+		for i := range keys {
+			r.doVote(i, v0, 1)
+			r.doVote(i, v1, 1)
+		}
+		r.doVote(5, v0, 1)
+		r.endBlock()
+		r.beginBlock() // the four updates are applied at this EndBlock
+		r.endBlock()
+		r.beginBlock()
+		r.doFund(4, 5, "9000000000")  // p4 starts voting now: deadline = height + the NEW option (150777)
+		r.doVote(5, v1, 1)            // p5: yes 2/3 = 66% >= its own 60% although the option is 80 now: passes
+		r.doCreate(1, 4, "1000000000", r.rep.H+4, r.rep.H+4+150777, "10000000000", 80, "", true)  // initial funding now 1.4e9: refused
+		r.doCreate(1, 4, "1400000000", r.rep.H+4, r.rep.H+4+150777, "10000000000", 80, "", true)  // accepted
+		r.doCreate(1, 4, "1400000000", r.rep.H+4, r.rep.H+4+150000, "10000000000", 60, "", true)  // genesis values: refused
+		r.endBlock()
+		r.beginBlock()
+		r.doVote(4, v0, 1)
+		r.doVote(4, v1, 1)
+		r.doVote(4, v2, 2)
+		r.endBlock()
+		for i := 0; i < 2; i++ {
+			r.beginBlock()
+			r.endBlock()
+		}
+		return r.finish()
+	})
 }
 
 // a full honest life: create, fund to the goal, vote yes, automatic finalisation (config update applied), and a failing one
@@ -896,6 +1220,14 @@ func c14CoqOp(o c14Op) string {
 	return fmt.Sprintf("mkTx (%s) %s %d%%N %s", op, env, o.Payer, c14Z(o.Fee))
 }
 
+func c14Bools(bs []bool) string {
+	x := []string{}
+	for _, b := range bs {
+		x = append(x, fmt.Sprint(b))
+	}
+	return "[" + strings.Join(x, "; ") + "]"
+}
+
 func c14CoqObs(o c14Obs) string {
 	ps := []string{}
 	for _, p := range o.Props {
@@ -918,7 +1250,7 @@ func c14CoqObs(o c14Obs) string {
 	for _, b := range o.Bal {
 		bs = append(bs, c14Z(b))
 	}
-	return fmt.Sprintf("mkSO %s [%s] [%s] %s %v %s", c14Zi(o.H), strings.Join(ps, "; "), strings.Join(bs, "; "), c14Z(o.Pool), o.Anom, c14Zi(o.Applied))
+	return fmt.Sprintf("mkSO %s [%s] [%s] %s %v %s", c14Zi(o.H), strings.Join(ps, "; "), strings.Join(bs, "; "), c14Z(o.Pool), o.Anom, c14Bools(o.Applied))
 }
 
 func c14WriteCoq(path string, cases []*c14Case, na int) {
@@ -982,7 +1314,7 @@ func c14Main(args []string) int {
 	fs.Parse(args)
 
 	cases := []*c14Case{}
-	builders := []func() *c14Case{c14ScriptE11, c14ScriptLife, c14ScriptNegative, c14ScriptDrift}
+	builders := []func() *c14Case{c14ScriptE11, c14ScriptLife, c14ScriptNegative, c14ScriptDrift, c14ScriptGoal(true), c14ScriptGoal(false), c14ScriptOptions}
 	for i := 0; i < *n; i++ {
 		ci := i
 		builders = append(builders, func() *c14Case { return c14Random(*seed, ci, *nb) })
